@@ -154,7 +154,8 @@ def mutants():
             if os.path.exists(mp) and os.path.exists(pp):
                 meta = json.load(open(mp))
                 out.append({"id": "seeded-" + name, "prop": meta["property"], "kind": "seeded", "patch": pp,
-                            "what": meta.get("summary", ""), "base_commit": meta.get("base_commit")})
+                            "what": meta.get("summary", ""), "base_commit": meta.get("base_commit"),
+                            "checks": meta.get("checks")})
     return out
 
 
@@ -194,6 +195,17 @@ def main():
                 continue
             code, lines, wall = run_check(m["prop"], d)
             caught = code == 1 and any(l.startswith("VIOLATION") for l in lines)
+            by = m["prop"]
+            for other in (m.get("checks") or [])[1:]:
+                if caught:
+                    break
+                # the change also falls under another property whose check is the one that sees it
+                code, lines, w2 = run_check(other, d)
+                wall += w2
+                caught = code == 1 and any(l.startswith("VIOLATION") for l in lines)
+                by = other
+            if caught and by != m["prop"]:
+                lines = [f"(caught by {by}) " + (lines[0] if lines else "")] + lines[1:]
             results.append(dict(id=m["id"], prop=m["prop"], kind=m["kind"], what=m["what"], exit=code,
                                 caught=caught, wall_s=wall, lines=lines[:4]))
             print(f"sensitivity {m['id']:45s} {m['prop']}: {'CAUGHT' if caught else 'MISSED (exit %d)' % code} "
